@@ -206,8 +206,16 @@
 			global.get $__heap_base
 			i32.const 32
 			i32.add
+			;; 至少分配 8 字节: size=0 会与 l128 头节点(size 恒为 0)精确匹配, 头节点被摘下并返回
 			local.get $size
 			call $heap_alignment8
+			local.tee $size
+			i32.eqz
+			if (result i32)
+				i32.const 8
+			else
+				local.get $size
+			end
 			return
 		end
 
